@@ -118,10 +118,70 @@ def dnf_implies(A, B, budget=4000):
     return all(refute(frozenset(a), B) for a in A)
 
 
+def _rewrite_guard(cond, rel):
+    """A test of a value whose variant is decided by another value (`opt.ok_or_else(..)?`, `Some(v).filter(|_| c)`) is a test of that value / of c: rewritten
+    before the guard is expanded, so that a failed `a && b` becomes its two cases instead of one opaque literal."""
+    for _ in range(4):
+        if tag(cond) != "discr":
+            break
+        x = cond[1]
+        if tag(x) == "vsum" and len(x) > 3 and x[3][0] == "maps":
+            names = {"std::result::Result": ("Ok", "Err"), "std::ops::ControlFlow": ("Continue", "Break"), "std::option::Option": ("None", "Some")}.get(x[1])
+            mp = dict(x[3][2])
+            which = None
+            if names is not None:
+                if rel in (("eq", 0), ("ne", (1,))):
+                    which = names[0]
+                elif rel in (("eq", 1), ("ne", (0,))):
+                    which = names[1]
+            if which is None or mp.get(which) is None:
+                break
+            cond, rel = ("discr", x[3][1]), ("eq", mp[which])
+            continue
+        if tag(x) == "filter" and tag(x[1]) == "variant" and x[1][2] == "Some" and rel in (("eq", 0), ("eq", 1), ("ne", (0,)), ("ne", (1,))):
+            cond, rel = x[2], ("eq", 1 if rel in (("eq", 1), ("ne", (0,))) else 0)
+            break
+        break
+    return cond, rel
+
+
+def _expand_and_guards(guards, depth=0):
+    """`a.and_then(f)` tested for its variant: Some / Ok means both a and f's result are; the other variant means a is not, or a is and f's result is not.
+    Returns the alternatives (lists of guard pairs) the given guard list stands for."""
+    out = [[]]
+    for cond, rel in guards:
+        cond, rel = _rewrite_guard(cond, rel)
+        x = cond[1] if tag(cond) == "discr" else None
+        alts = [[(cond, rel)]]
+        if tag(x) == "vsum" and len(x) > 3 and x[3][0] == "and" and depth < 3:
+            gd = {"Some": 1, "Ok": 0}.get(x[3][3])
+            if gd is not None and rel in (("eq", 0), ("eq", 1), ("ne", (0,)), ("ne", (1,))):
+                is_good = rel == ("eq", gd) or rel == ("ne", (1 - gd,))
+                a_, r_ = ("discr", x[3][1]), ("discr", x[3][2])
+                if is_good:
+                    alts = _expand_and_guards([(a_, ("eq", gd)), (r_, ("eq", gd))], depth + 1)
+                else:
+                    alts = _expand_and_guards([(a_, ("eq", 1 - gd))], depth + 1) + _expand_and_guards([(a_, ("eq", gd)), (r_, ("eq", 1 - gd))], depth + 1)
+        out = [o + a for o in out for a in alts][:64]
+    return out
+
+
 def guard_dnf(guards):
     """the guards of one CFG edge as a DNF of fact sets: a false `a && b` (a true `a || b`) is a disjunction, everything else one conjunction"""
+    guards = list(guards)
+    alts_ = _expand_and_guards(guards)
+    if len(alts_) > 1 or (alts_ and alts_[0] != guards):
+        res_ = []
+        for g_ in alts_:
+            res_.extend(_guard_dnf1(g_))
+        return res_[:64]
+    return _guard_dnf1(guards)
+
+
+def _guard_dnf1(guards):
     out = [frozenset()]
     for cond, rel in guards:
+        cond, rel = _rewrite_guard(cond, rel)
         t = tag(cond)
         truth = True if rel in (("eq", 1), ("ne", (0,))) else (False if rel in (("eq", 0), ("ne", (1,))) else None)
         alts = None
@@ -200,8 +260,20 @@ _INT_RANGE = {"u8": (0, 2**8 - 1), "u16": (0, 2**16 - 1), "u32": (0, 2**32 - 1),
 
 def guard_dnf_pairs(guards):
     """like guard_dnf, but the disjuncts are lists of (cond, rel) guard pairs (for callers that extract literals themselves)"""
+    guards = list(guards)
+    alts_ = _expand_and_guards(guards)
+    if len(alts_) > 1 or (alts_ and alts_[0] != guards):
+        res_ = []
+        for g_ in alts_:
+            res_.extend(_guard_dnf_pairs1(g_))
+        return res_[:64]
+    return _guard_dnf_pairs1(guards)
+
+
+def _guard_dnf_pairs1(guards):
     out = [[]]
     for cond, rel in guards:
+        cond, rel = _rewrite_guard(cond, rel)
         t = tag(cond)
         truth = True if rel in (("eq", 1), ("ne", (0,))) else (False if rel in (("eq", 0), ("ne", (1,))) else None)
         if t == "not" and truth is not None:
@@ -357,20 +429,26 @@ def bool_dnf(ev, res, body, t, truth=True, depth=0):
     tg = tag(t)
     if tg == "not":
         return bool_dnf(ev, res, body, t[1], not truth, depth + 1)
-    if tg == "phi" and len(t) > 4 and t[4] and all(o is not None for o in t[4]):
+    if tg == "phi" and len(t) > 4 and t[4] and len(t[4]) == len(t[3]) and list(t[4]).count(None) <= 1:
         try:
             jb = int(str(t[1][-1]).split("@")[-1])
         except ValueError:
             jb = None
         if jb is not None and str(t[1][-1]).startswith("%s@" % body.name):
+            back = set(body.back_edges())
+            preds = [p for p in body.pred[jb] if p in body.reachable and not body.blocks[p]["cleanup"] and (p, jb) not in back]
+            named = set(o for o in t[4] if o is not None)
             out = []
             for alt, origin in zip(t[3], t[4]):
-                eg = [c for c in guard_dnf(ev.guards_edge(res, origin, jb, body))]
-                for a in bool_dnf(ev, res, body, alt, truth, depth + 1):
-                    for g in eg:
-                        c = a | g
-                        if not conj_unsat(c):
-                            out.append(c)
+                # an alternative without a named edge is what several edges bring alike: every edge the other alternatives do not name
+                edges = [origin] if origin is not None else [p for p in preds if p not in named]
+                for o_ in edges:
+                    eg = [c for c in guard_dnf(ev.guards_edge(res, o_, jb, body))]
+                    for a in bool_dnf(ev, res, body, alt, truth, depth + 1):
+                        for g in eg:
+                            c = a | g
+                            if not conj_unsat(c):
+                                out.append(c)
             return out
     return guard_dnf([(t, ("eq", 1 if truth else 0))])
 
